@@ -47,6 +47,7 @@ import (
 	issuancetypes "github.com/kava-labs/kava/x/issuance/types"
 	kavadisttypes "github.com/kava-labs/kava/x/kavadist/types"
 	liquidtypes "github.com/kava-labs/kava/x/liquid/types"
+	precisebanktypes "github.com/kava-labs/kava/x/precisebank/types"
 	pricefeedtypes "github.com/kava-labs/kava/x/pricefeed/types"
 	savingstypes "github.com/kava-labs/kava/x/savings/types"
 	swaptypes "github.com/kava-labs/kava/x/swap/types"
@@ -123,6 +124,13 @@ type World struct {
 	// values (the resulting full parameter set passes the module's Params.Validate).  Off by
 	// default: the C01 / C14 drivers keep their transaction mix.
 	ParamChanges bool
+	// CommitteeTraffic adds text proposals to the deadline-tallied member committee (2) and the
+	// token committee (3) and votes on them: proposals with votes stay pending until their deadline.
+	CommitteeTraffic bool
+	// MalformedParams adds the malformed stream (malformed.go) to the parameter-change proposals.
+	MalformedParams bool
+	// Malformed lists the malformed changes handed to the chain so far (MalformedStored).
+	Malformed []MalformedRec
 }
 
 type bep3Swap struct {
@@ -179,6 +187,24 @@ func (w *World) BuildGenesis(cdc codec.JSONCodec) app.GenesisState {
 	// incentive module needs reward coins; kavadist/community pools
 	ab.WithSimpleModuleAccount(incentivetypes.IncentiveMacc, cs(c("hard", 1_000_000_000_000), c("swp", 1_000_000_000_000), c("ukava", 1_000_000_000_000)), "minter") // IncentiveMacc is the kavadist module account
 	ab.WithSimpleModuleAccount(communitytypes.ModuleAccountName, cs(c("ukava", 50_000_000_000)))
+	if wd != nil && len(wd.Fractional) > 0 {
+		// precisebank: fractional balances, the remainder that completes them to whole ukava, and the reserve backing both
+		conv := precisebanktypes.ConversionFactor()
+		sum := sdkmath.ZeroInt()
+		var fb precisebanktypes.FractionalBalances
+		for i, f := range wd.Fractional {
+			fb = append(fb, precisebanktypes.NewFractionalBalance(w.Addrs[i].String(), sdkmath.NewInt(f)))
+			sum = sum.AddRaw(f)
+		}
+		rem := conv.Sub(sum.Mod(conv)).Mod(conv)
+		reserve := sum.Add(rem).Quo(conv)
+		pbGen := precisebanktypes.NewGenesisState(fb, rem)
+		if err := pbGen.Validate(); err != nil {
+			panic("world: generated precisebank genesis invalid: " + err.Error())
+		}
+		gs[precisebanktypes.ModuleName] = cdc.MustMarshalJSON(pbGen)
+		ab.WithSimpleModuleAccount(precisebanktypes.ModuleName, cs(sdk.NewCoin("ukava", reserve)), "minter", "burner")
+	}
 	for k, v := range ab.BuildMarshalled(cdc) {
 		gs[k] = v
 	}
@@ -374,6 +400,12 @@ func (w *World) BuildGenesis(cdc codec.JSONCodec) app.GenesisState {
 			}
 		}
 	}
+	earnPeriods := incentivetypes.MultiRewardPeriods{mrp(6, "usdx", c("hard", 901))}
+	if wd != nil && wd.BkavaEarnRate > 0 {
+		// the aggregate period for every bkava-<validator> earn vault: the incentive begin blocker then
+		// collects the liquid module account's staking rewards for each derivative vault it knows
+		earnPeriods = append(earnPeriods, mrp(6, "bkava", c("ukava", wd.BkavaEarnRate)))
+	}
 	incParams := incentivetypes.NewParams(
 		usdxPeriods,
 		incentivetypes.MultiRewardPeriods{mrp(1, "bnb", c("hard", 31234)), mrp(1, "usdx", c("hard", 1000), c("swp", 77))},
@@ -381,9 +413,13 @@ func (w *World) BuildGenesis(cdc codec.JSONCodec) app.GenesisState {
 		incentivetypes.MultiRewardPeriods{mrp(3, "ukava", c("hard", 2111), c("swp", 9))},
 		incentivetypes.MultiRewardPeriods{mrp(4, "bnb:usdx", c("swp", 44123))},
 		incentivetypes.MultiRewardPeriods{mrp(5, "busd", c("hard", 17))},
-		incentivetypes.MultiRewardPeriods{mrp(6, "usdx", c("hard", 901))},
+		earnPeriods,
 		mult, claimEnd,
 	)
+	if wd != nil {
+		// NewParams ignores its earn argument (x/incentive/types/params.go): set the field
+		incParams.EarnRewardPeriods = earnPeriods
+	}
 	if err := incParams.Validate(); err != nil {
 		panic("world: generated incentive params invalid: " + err.Error())
 	}
@@ -402,6 +438,12 @@ func (w *World) BuildGenesis(cdc codec.JSONCodec) app.GenesisState {
 	if wd != nil {
 		coms = append(coms, committeetypes.MustNewMemberCommittee(2, "text committee", []sdk.AccAddress{w.Addrs[1], w.Addrs[2], w.Addrs[3]},
 			[]committeetypes.Permission{&committeetypes.TextPermission{}}, d("0.667"), propDur, committeetypes.TALLY_OPTION_DEADLINE))
+	}
+	if wd != nil && wd.TokenCommitteeDurSec > 0 {
+		// a token committee (votes weighted by the hard balance of any account, tallied at the deadline)
+		coms = append(coms, committeetypes.MustNewTokenCommittee(3, "token committee", []sdk.AccAddress{w.Addrs[4], w.Addrs[5]},
+			[]committeetypes.Permission{&committeetypes.TextPermission{}}, d("0.5"), time.Duration(wd.TokenCommitteeDurSec)*time.Second,
+			committeetypes.TALLY_OPTION_DEADLINE, d(wd.TokenCommitteeQuorum), "hard"))
 	}
 	comGen := committeetypes.NewGenesisState(1, coms, committeetypes.Proposals{}, []committeetypes.Vote{})
 	gs[committeetypes.ModuleName] = cdc.MustMarshalJSON(comGen)
@@ -707,6 +749,10 @@ func (w *World) GenTx(r *Rng, tApp app.TestApp, used map[int]bool) ([]byte, stri
 		delete(used, u)
 		return w.genParamChange(r, tApp, ctx, used)
 	}
+	if w.CommitteeTraffic && w.Cfg.Wide != nil && r.Chance(1, 9) {
+		delete(used, u)
+		return w.genCommitteeTraffic(r, tApp, ctx, used)
+	}
 	switch kind {
 	case 0:
 		m := banktypes.NewMsgSend(A, other, cs(c([]string{"ukava", "bnb", "usdx", "xrp"}[r.Intn(4)], amt(r, 1_000_000_000))))
@@ -944,7 +990,13 @@ func (w *World) GenTx(r *Rng, tApp app.TestApp, used map[int]bool) ([]byte, stri
 			}
 		}
 		if r.Chance(2, 3) {
-			m := savingstypes.NewMsgDeposit(A, cs(c(dn, amt(r, 1_000_000_000))))
+			a := amt(r, 1_000_000_000)
+			if strings.HasPrefix(dn, "bkava-") { // derivative amounts are small: stay within the balance
+				if bal := tApp.GetBankKeeper().GetBalance(ctx, A, dn).Amount; bal.IsPositive() && bal.IsInt64() && r.Chance(4, 5) {
+					a = 1 + r.Int63n(bal.Int64())
+				}
+			}
+			m := savingstypes.NewMsgDeposit(A, cs(c(dn, a)))
 			msg, desc = &m, "savings.deposit"
 		} else {
 			a := amt(r, 1_000_000_000)
@@ -969,13 +1021,32 @@ func (w *World) GenTx(r *Rng, tApp app.TestApp, used map[int]bool) ([]byte, stri
 				dn = "bkava-" + w.ValAddr.String()
 			}
 		}
+		bk := "bkava-" + w.ValAddr.String()
+		ek0 := tApp.GetEarnKeeper()
+		if w.Cfg.Wide != nil && r.Chance(1, 4) { // derivative held or deposited: use it
+			if tApp.GetBankKeeper().GetBalance(ctx, A, bk).Amount.IsPositive() {
+				dn, st = bk, earntypes.STRATEGY_TYPE_SAVINGS
+			} else if v, err := ek0.GetVaultAccountValue(ctx, bk, A); err == nil && v.Amount.IsPositive() {
+				msg, desc = earntypes.NewMsgWithdraw(A.String(), sdk.NewCoin(bk, v.Amount.SubRaw(int64(r.Intn(2))*int64(r.Intn(2)))), earntypes.STRATEGY_TYPE_SAVINGS), "earn.withdraw"
+				break
+			}
+		}
 		if r.Chance(2, 3) {
-			msg, desc = earntypes.NewMsgDeposit(A.String(), c(dn, amt(r, 1_000_000_000)), st), "earn.deposit"
+			a := amt(r, 1_000_000_000)
+			if dn == bk {
+				if bal := tApp.GetBankKeeper().GetBalance(ctx, A, dn).Amount; bal.IsPositive() && bal.IsInt64() && r.Chance(5, 6) {
+					a = bal.Int64()
+					if r.Chance(1, 3) {
+						a = 1 + r.Int63n(bal.Int64())
+					}
+				}
+			}
+			msg, desc = earntypes.NewMsgDeposit(A.String(), c(dn, a), st), "earn.deposit"
 		} else {
 			a := amt(r, 1_000_000_000)
 			ek := tApp.GetEarnKeeper()
 			if v, err := ek.GetVaultAccountValue(ctx, dn, A); err == nil && v.Amount.IsPositive() && r.Chance(2, 3) {
-				a = v.Amount.Int64() - int64(r.Intn(4)) // whole value, or leaving 1..3 units (dust sweep territory)
+				a = v.Amount.Int64() - int64(r.Intn(4))*int64(r.Intn(2)) // whole value, or leaving 1..3 units (dust sweep territory)
 			}
 			if a <= 0 {
 				a = 1
@@ -1130,11 +1201,61 @@ func (w *World) GenTx(r *Rng, tApp app.TestApp, used map[int]bool) ([]byte, stri
 		case 1:
 			msg, desc = stakingtypes.NewMsgUndelegate(A, w.ValAddr, c("ukava", amt(r, 200_000_000))), "staking.undelegate"
 		default:
-			m := liquidtypes.NewMsgMintDerivative(A, w.ValAddr, c("ukava", amt(r, 200_000_000)))
+			a := amt(r, 200_000_000)
+			del, found := tApp.GetStakingKeeper().GetDelegation(ctx, A, w.ValAddr)
+			if !found && r.Chance(2, 3) { // nothing to convert yet: delegate first (whole shares of the genesis validator)
+				msg, desc = stakingtypes.NewMsgDelegate(A, w.ValAddr, c("ukava", int64(1+r.Intn(400))*1_000_000)), "staking.delegate"
+				break
+			}
+			if val, ok := tApp.GetStakingKeeper().GetValidator(ctx, w.ValAddr); ok && found && r.Chance(4, 5) { // within the delegation
+				if tok := val.TokensFromShares(del.Shares).TruncateInt(); tok.IsPositive() && tok.IsInt64() {
+					a = 1 + r.Int63n(tok.Int64())
+					if r.Chance(1, 2) {
+						a = tok.Int64() // the whole delegation
+					}
+				}
+			}
+			m := liquidtypes.NewMsgMintDerivative(A, w.ValAddr, c("ukava", a))
 			msg, desc = &m, "liquid.mint"
 		}
 	case 22:
-		m := liquidtypes.NewMsgBurnDerivative(A, w.ValAddr, c("bkava-"+w.ValAddr.String(), amt(r, 100_000_000)))
+		dn := "bkava-" + w.ValAddr.String()
+		a := amt(r, 100_000_000)
+		if bal := tApp.GetBankKeeper().GetBalance(ctx, A, dn).Amount; bal.IsPositive() && bal.IsInt64() && r.Chance(5, 6) {
+			a = bal.Int64() // everything the signer holds
+			if r.Chance(1, 3) {
+				a = 1 + r.Int63n(bal.Int64())
+			}
+		} else if w.Cfg.Wide != nil && r.Chance(5, 6) { // holds none: take it out of earn / savings first
+			ek1 := tApp.GetEarnKeeper()
+			if v, err := ek1.GetVaultAccountValue(ctx, dn, A); err == nil && v.Amount.IsPositive() {
+				msg, desc = earntypes.NewMsgWithdraw(A.String(), v, earntypes.STRATEGY_TYPE_SAVINGS), "earn.withdraw"
+				break
+			}
+			if dep, ok := tApp.GetSavingsKeeper().GetDeposit(ctx, A); ok && dep.Amount.AmountOf(dn).IsPositive() {
+				m := savingstypes.NewMsgWithdraw(A, cs(sdk.NewCoin(dn, dep.Amount.AmountOf(dn))))
+				msg, desc = &m, "savings.withdraw"
+				break
+			}
+			// no derivative anywhere: get some (convert the delegation, or delegate first)
+			if del, found := tApp.GetStakingKeeper().GetDelegation(ctx, A, w.ValAddr); found {
+				if val, ok := tApp.GetStakingKeeper().GetValidator(ctx, w.ValAddr); ok {
+					if tok := val.TokensFromShares(del.Shares).TruncateInt(); tok.IsPositive() && tok.IsInt64() {
+						x := tok.Int64()
+						if r.Chance(1, 2) {
+							x = 1 + r.Int63n(tok.Int64())
+						}
+						m := liquidtypes.NewMsgMintDerivative(A, w.ValAddr, c("ukava", x))
+						msg, desc = &m, "liquid.mint"
+						break
+					}
+				}
+			} else {
+				msg, desc = stakingtypes.NewMsgDelegate(A, w.ValAddr, c("ukava", int64(1+r.Intn(400))*1_000_000)), "staking.delegate"
+				break
+			}
+		}
+		m := liquidtypes.NewMsgBurnDerivative(A, w.ValAddr, c(dn, a))
 		msg, desc = &m, "liquid.burn"
 	case 23: // gov text proposal + vote
 		if r.Chance(1, 2) {
@@ -1161,9 +1282,16 @@ func (w *World) GenTx(r *Rng, tApp app.TestApp, used map[int]bool) ([]byte, stri
 			switch r.Intn(w.nProposalKinds()) {
 			case 0: // an upgrade plan a few blocks ahead: stale by the time the deciding vote arrives
 				content = upgradetypes.NewSoftwareUpgradeProposal("up", "plan", upgradetypes.Plan{Name: fmt.Sprintf("plan-%d", w.Height), Height: w.Height + int64(1+r.Intn(4))})
-			case 1: // a parameter change
+			case 1: // a parameter change (the three durations together: every enactment order leaves a set that passes Params.Validate)
+				ap := tApp.GetAuctionKeeper().GetParams(ctx)
+				longest := ap.ForwardBidDuration
+				if ap.ReverseBidDuration > longest {
+					longest = ap.ReverseBidDuration
+				}
 				content = paramsproposal.NewParameterChangeProposal("p", "change", []paramsproposal.ParamChange{
-					{Subspace: "auction", Key: "MaxAuctionDuration", Value: fmt.Sprintf("\"%d\"", (1+r.Intn(48))*3600_000_000_000)}})
+					pc(tApp, auctiontypes.ModuleName, auctiontypes.KeyForwardBidDuration, ap.ForwardBidDuration),
+					pc(tApp, auctiontypes.ModuleName, auctiontypes.KeyReverseBidDuration, ap.ReverseBidDuration),
+					pc(tApp, auctiontypes.ModuleName, auctiontypes.KeyMaxAuctionDuration, longest+time.Duration(r.Intn(48))*time.Hour)})
 			}
 			m, err := committeetypes.NewMsgSubmitProposal(content, w.Addrs[signer], 1)
 			if err != nil {
@@ -1496,4 +1624,101 @@ func firstLine(s string, code uint32) string {
 		s = s[:160]
 	}
 	return s
+}
+
+// ---------------------------------------------------------------- precisebank traffic
+
+// FracOp is a transfer of an akava amount (18 decimals; x/evm's unit) between two users through
+// the precisebank keeper - what an EVM value transfer does.  It is applied by the driver on the
+// deliver state right after BeginBlock (a harness hook: the world signs no Ethereum
+// transactions), identically on every replica of the chain.
+type FracOp struct {
+	From, To int
+	Akava    sdkmath.Int
+}
+
+// GenFracOp draws a transfer: amounts that are not multiples of 10^12 leave fractional
+// balances, a reserve and (through borrow / carry) exercise both directions of the integer part.
+func (w *World) GenFracOp(r *Rng) FracOp {
+	from := r.Intn(NUsers)
+	to := (from + 1 + r.Intn(NUsers-1)) % NUsers
+	var a sdkmath.Int
+	switch r.Intn(4) {
+	case 0:
+		a = sdkmath.NewInt(1 + r.Int63n(999_999_999_999)) // fractional part only
+	case 1:
+		a = sdkmath.NewInt(1 + r.Int63n(5_000_000)).MulRaw(1_000_000_000_000).AddRaw(r.Int63n(1_000_000_000_000))
+	case 2:
+		a = sdkmath.NewInt([]int64{1, 999_999_999_999, 1_000_000_000_001, 500_000_000_000}[r.Intn(4)])
+	default:
+		a = sdkmath.NewInt(1 + r.Int63n(3_000_000_000_000))
+	}
+	return FracOp{from, to, a}
+}
+
+// ApplyFracOp performs the transfer on tApp's deliver state (call between BeginBlock and the
+// block's transactions).  Returns the keeper's error text ("" on success); a panic is returned
+// as "panic: …".
+func (w *World) ApplyFracOp(tApp app.TestApp, height int64, t time.Time, op FracOp) (res string) {
+	defer func() {
+		if r := recover(); r != nil {
+			res = fmt.Sprintf("panic: %v", r)
+		}
+	}()
+	ctx := tApp.NewContext(false, tmproto.Header{Height: height, Time: t, ChainID: app.TestChainId})
+	err := tApp.GetPrecisebankKeeper().SendCoins(ctx, w.Addrs[op.From], w.Addrs[op.To], sdk.NewCoins(sdk.NewCoin(precisebanktypes.ExtendedCoinDenom, op.Akava)))
+	if err != nil {
+		return err.Error()
+	}
+	return ""
+}
+
+// genCommitteeTraffic: a text proposal to committee 2 (members: users 1-3, yes votes counted at the
+// deadline) or 3 (token committee, members users 4-5, any hard holder votes), or a vote on a
+// pending proposal by someone entitled to it.
+func (w *World) genCommitteeTraffic(r *Rng, tApp app.TestApp, ctx sdk.Context, used map[int]bool) ([]byte, string) {
+	free := func(cands ...int) int {
+		var fs []int
+		for _, c := range cands {
+			if !used[c] {
+				fs = append(fs, c)
+			}
+		}
+		if len(fs) == 0 {
+			return -1
+		}
+		return fs[r.Intn(len(fs))]
+	}
+	props := tApp.GetCommitteeKeeper().GetProposals(ctx)
+	if len(props) > 0 && r.Chance(3, 5) {
+		p := props[r.Intn(len(props))]
+		voter, vt := -1, committeetypes.VOTE_TYPE_YES
+		switch p.CommitteeID {
+		case 2:
+			voter = free(1, 2, 3)
+		case 3:
+			voter = free(0, 1, 2, 3, 4, 5)
+			vt = []committeetypes.VoteType{committeetypes.VOTE_TYPE_YES, committeetypes.VOTE_TYPE_YES, committeetypes.VOTE_TYPE_NO, committeetypes.VOTE_TYPE_ABSTAIN}[r.Intn(4)]
+		default:
+			voter = free(w.Member, 0)
+		}
+		if voter < 0 {
+			return nil, ""
+		}
+		used[voter] = true
+		return w.Sign(tApp, voter, committeetypes.NewMsgVote(w.Addrs[voter], p.ID, vt)), fmt.Sprintf("committee.vote.c%d", p.CommitteeID)
+	}
+	com, signer := uint64(2), free(1, 2, 3)
+	if w.Cfg.Wide.TokenCommitteeDurSec > 0 && r.Chance(1, 2) {
+		com, signer = 3, free(4, 5)
+	}
+	if signer < 0 {
+		return nil, ""
+	}
+	used[signer] = true
+	m, err := committeetypes.NewMsgSubmitProposal(govv1beta1.NewTextProposal(fmt.Sprintf("text %d", w.Height), "nothing"), w.Addrs[signer], com)
+	if err != nil {
+		panic(err)
+	}
+	return w.Sign(tApp, signer, m), fmt.Sprintf("committee.submit.c%d", com)
 }
